@@ -117,8 +117,8 @@ EXHAUSTIVE = [
     ('cell_split', ' 01a(', 5, 7, [('', ''), ('1 0 ', ''), ('1 1 ', ''), ('7 like 1 but', '')]),
     ('cell_split', ' 0)*:i-', 3, 5, [('3 0 -1', ''), ('3 2 -1.0 (1', ''), ('3 00 ', ' imp:n=1')]),
     ('opt_tokens', ' :=(Aa)', 4, 6, [('', ''), ('imp', '1')]),
-    ('to_float', '1.+-eEdD', 5, 7, [('', ''), ('1.5', ''), ('-.', '0')]),
-    ('to_float', '10.+-d', 6, 8, [('', '')]),
+    ('to_float', '1.+-eEdD', 4, 7, [('', ''), ('1.5', ''), ('-.', '0')]),
+    ('to_float', '10.+-d', 5, 8, [('', '')]),
     ('front', 'a \nc', 5, 7, [('t\n', ''), ('t\n1 0 1\n\n', ''), ('message:\n\nt\n', '\n\na')]),
 ]
 
@@ -286,7 +286,7 @@ def prepare_lines(res, tier):
 
 
 EXPAND_ALPHABET = ['1', '2', '-3', '0', 'r', '2r', '3R', 'i', '2i', '1I', '3m', '2M',
-                   'm', 'j', '2J', 'x', '12']
+                   'm', 'j', '2J', 'x', '12', '0r', '0J']
 
 
 def prepare_expand(res, tier):
@@ -394,7 +394,7 @@ def malform(rng, text):
 
 
 def prepare_layout(res, tier, rng):
-    n_decks = 30 if tier == 'quick' else 300
+    n_decks = 24 if tier == 'quick' else 300
     triples, meta = [], []
 
     def add(name, inp, nontrivial=True):
@@ -413,7 +413,7 @@ def prepare_layout(res, tier, rng):
         for _ in range(2):
             texts.append(D.render(deck, D.Layout(rng, numbers=False)))
         bad_texts = []
-        for _ in range(4):
+        for _ in range(3 if tier == 'quick' else 6):
             bad_text, kind = malform(rng, rng.choice(texts))
             res.count('layout:malformed:' + kind)
             bad_texts.append(bad_text)
@@ -460,7 +460,7 @@ def prepare_layout(res, tier, rng):
 
     def finish(bad):
         res.obligation(f'tie:layout ({len(uniq)} distinct calls on {n_decks} '
-                       'decks x 3 layouts + 4 malformed: blocks, get_cards, '
+                       'decks x 3 layouts + 3 (thorough 6) malformed: blocks, get_cards, '
                        'splits, option tokens, front)', not bad,
                        f'{len(bad)} disagreements')
         for k in bad[:8]:
